@@ -4,6 +4,7 @@
 # whether it is caught (exit 1 with a replay-confirmed VIOLATION).  /repo itself is never modified.
 cd "$(dirname "$0")/.."
 out=seeded/RESULTS.txt
+[ $# -gt 0 ] && out=/tmp/RESULTS.partial.txt     # a partial run never replaces the committed full table
 names=${@:-$(ls seeded | grep -E '^C[0-9]+(_[0-9]+)?$')}
 : > $out.tmp
 for n in $names; do
